@@ -33,3 +33,6 @@ func SortedKeys[M ~map[K]V, K cmp.Ordered, V any](m M) []K {
 	slices.Sort(keys)
 	return keys
 }
+
+// GoID returns the id of the calling goroutine (for worlds that mark individual goroutines).
+func GoID() uint64 { return goid() }
